@@ -39,8 +39,11 @@ def validate_program(run, sc, tag, cse=True, ekf=True, prefix="C02"):
         if qual in numeric_cache:
             return numeric_cache[qual]
         out = []
-        for k in (3, 4):
-            pt = sc.point(k)
+        for k in (3, 4, -3):
+            pt = sc.point(abs(k))
+            if k < 0:
+                # the same point with every state / control / calibration value made NEGATIVE (sign conventions: fmod vs Mod, sign, |.|)
+                pt = {s: (v if s is sc.dt else -abs(v) if v != 0 else -type(v)(1, 2)) for s, v in pt.items()}
             vals = {s.name: float(v) for s, v in pt.items()}
             ev = cxxtext.Evaluator(L, objects, lambda nm: vals[nm])
             ev.numeric = True
